@@ -30,7 +30,7 @@ impl ValueFile {
         ks_name: &str,
         sig2: HeaderSignature,
         params: &FileDbParams,
-    ) -> Result<Self> {
+    ) -> Result<(Self, bool)> {
         let piece_mgr = PieceMgr::new(&REC_SIZE_FREE_OFFSET, &REC_SIZE_ARY);
         let mut pb = path.as_ref().to_path_buf();
         pb.push(format!("{ks_name}.val"));
@@ -66,7 +66,7 @@ impl ValueFile {
         //
         let file_rc = VarFileValueCache(file, PhantomData);
         //
-        Ok(Self(Rc::new(RefCell::new(file_rc))))
+        Ok((Self(Rc::new(RefCell::new(file_rc))), file_length.is_zero()))
     }
     #[inline]
     pub fn read_fill_buffer(&self) -> Result<()> {
